@@ -56,7 +56,7 @@ pub fn sweeps(ctx: &Ctx) -> Vec<Sweep> {
         let st = crate::c01::stores();
         let few: Vec<Vec<u8>> = [0usize, 5, 40, 100].iter().map(|i| st[*i].clone()).collect();
         crate::c01::run_headers("types-sig", true, 2, &[1000, 1001], &[0, -1], &[0, 1, 2], &few, &[b"pay"])
-    }, crate::c01::run_empty_and_truncated(), crate::c01::run_lead(), crate::c01::run_section_edges(), crate::c01::run_entry_geometry()]
+    }, crate::c01::run_empty_and_truncated(), crate::c01::run_lead(), crate::c01::run_section_edges(), crate::c01::run_entry_geometry(), crate::c01::run_entry_counts()]
 }
 
 pub fn run(ctx: &Ctx) -> i32 {
@@ -70,6 +70,7 @@ pub fn run(ctx: &Ctx) -> i32 {
     let (s_ld, _ev) = run_sweep(ctx, &sw[6]);
     let (s_se, _ev) = run_sweep(ctx, &sw[7]);
     let (s_eg, _ev) = run_sweep(ctx, &sw[8]);
+    let (s_ec, _ev) = run_sweep(ctx, &sw[9]);
     // the public header API: Header::clear() / Header::new_empty() on the signature header
     let mut h = Acc::new();
     {
@@ -154,7 +155,7 @@ pub fn run(ctx: &Ctx) -> i32 {
     }
     ctx.finish(
         "exploration",
-        vec![s1, s_dr, s_ut, s_th, s_ts, s_et, s_ld, s_se, s_eg, s_api, s_bd, s2, s3],
+        vec![s1, s_dr, s_ut, s_th, s_ts, s_et, s_ld, s_se, s_eg, s_ec, s_api, s_bd, s2, s3],
         &["offset arithmetic is exercised for every signature-store residue mod 8; header sizes beyond the enumerated ones are covered by the assets and the corpus only"],
         vec![],
     )
